@@ -1,0 +1,17 @@
+//go:build verif
+
+// Constructors used only by the deterministic-simulation harness (build tag verif).
+package mastership
+
+import (
+	"github.com/onosproject/onos-config/pkg/store/topo"
+	configurationstore "github.com/onosproject/onos-config/pkg/store/v3/configuration"
+)
+
+func NewReconcilerForVerif(t topo.Store, c configurationstore.Store) *Reconciler {
+	return &Reconciler{topo: t, configurations: c}
+}
+func NewTopoWatcherForVerif(t topo.Store) *TopoWatcher { return &TopoWatcher{topo: t} }
+func NewConfigurationStoreWatcherForVerif(c configurationstore.Store) *ConfigurationStoreWatcher {
+	return &ConfigurationStoreWatcher{configurations: c}
+}
